@@ -7,6 +7,8 @@ import DarkluaModel.C06.Whole
 import DarkluaModel.C06.CompoundWhole
 import DarkluaModel.C06.InterpFormat
 import DarkluaModel.C06.CompoundGuard
+import DarkluaModel.Rules.RemoveContinuePost
+import DarkluaModel.C06.ContinueWhole
 /-!
 # C06 — the Luau-lowering rules preserve program behaviour: property theorems (local lemmas)
 
@@ -356,15 +358,39 @@ theorem ifexpr_boxed_cond_fails (c tr te : Expr) (σ : State N) (d : Nat)
   | err x σ1 => simp [evalE, h, Res.bind]
   | timeout => simp [evalE, h, Res.bind]
 
-/-- the general statement (branches that may allocate): equal observable outcome of whole programs;
-to be proved with the allocation-insensitive relation (in progress elsewhere) — NOT proved here,
-covered by the execution oracle. -/
-def ifexpr_boxed_general : Prop :=
+/-- the string values a run returned -/
+def outStrs : Outcome → List (List UInt8)
+  | .returned vals _ => vals.map fun v => match v with | .str s => s | _ => []
+  | _ => [[0]]
+
+/-- the full statement for the table-boxed encoding (every result boxed), over EVERY number system -/
+def ifexpr_boxed_full : Prop :=
   ∀ (truthy : Expr → Bool) (b : Block) (N : NumOps) (ρ : ExtOracle N) (n : Nat) (externs : List String),
     (∀ r, truthy r = false) →
     runProgram ρ n externs (RemoveIfExpression.apply truthy b) = runProgram ρ n externs b ∨
       runProgram ρ n externs b = .timeout
 
+/-- a number system in which the literal `1` is not the index `1` of a table constructor -/
+def oddOps : NumOps := { Rules.Witness.unitOps with eq := fun _ _ => false }
+
+/-- **it is FALSE over every number system**: `(c and {r} or {e})[1]` reads the box with the LITERAL `1`
+(`N.ofBits 0x3FF0…`) while the table constructor stored the value at `N.ofNat 1`; raw equality of keys goes
+through `N.eq`. In a number system where the two are not equal (`oddOps`; IEEE doubles are fine) the box
+reads back `nil`: `return if true then "a" else "b"` returns `"a"`, the lowered program returns `nil`.
+The right statement is relative to number systems with `N.eq (N.ofNat 1) (N.ofBits 0x3FF0000000000000)`
+(`ifexpr_boxed_atoms` has that hypothesis); the whole-rule version needs the lifting layer to be
+parametric in a class of number systems, and a pinned right table (meta/C06.json, proof_gaps). -/
+theorem ifexpr_boxed_full_false : ¬ ifexpr_boxed_full := by
+  intro hfull
+  let w : Block := .mk [] (some (.ret [.ifx .true (.str [97]) [] (.str [98])]))
+  have h1 : outStrs (runProgram (N := oddOps) (fun _ _ _ => []) 3 [] w) = [[97]] := by decide +kernel
+  have h2 : outStrs (runProgram (N := oddOps) (fun _ _ _ => []) 3 []
+      (RemoveIfExpression.apply (fun _ => false) w)) = [[]] := by decide +kernel
+  have h3 : runProgram (N := oddOps) (fun _ _ _ => []) 3 [] w ≠ .timeout := by
+    intro h; rw [h] at h1; revert h1; decide
+  rcases hfull (fun _ => false) w oddOps (fun _ _ _ => []) 3 [] (fun _ => rfl) with h | h
+  · rw [h, h1] at h2; revert h2; decide
+  · exact h3 h
 
 /-! ## `remove_floor_division` -/
 
@@ -705,11 +731,6 @@ def f30Witness : Block :=
        .cassign .concat (.index (.var "T") (.call (.var "key") none .tuple [])) (.str [98])]
     (some (.ret [.field (.var "T") "x", .field (.var "U") "x"]))
 
-/-- the string values a run returned -/
-def outStrs : Outcome → List (List UInt8)
-  | .returned vals _ => vals.map fun v => match v with | .str s => s | _ => []
-  | _ => [[0]]
-
 open Rules.Witness in
 /-- **F30**: an identifier prefix gets no temporary while the key does, so the key is evaluated before
 the prefix variable is read: when evaluating the key assigns that variable, the original updates the OLD
@@ -776,13 +797,60 @@ example : okB Compound.cGuard compoundSample := by
   refine ⟨⟨rfl, rfl, fun n hn => ?_⟩, rfl, rfl, fun n hn => ?_, fun _ => rfl⟩ <;>
     simp [Expr.refsT, Expr.refs, Expr.refsList, (key n hn).1, (key n hn).2.1, (key n hn).2.2]
 
-/-- `remove_continue` on programs without `repeat` loops (F9 is about `repeat`): flag + inner
-`repeat … until true` + conditional `break`, for `while` / numeric `for` / generic `for`, bodies that
-also `break` or `return` included. -/
+/-- the two Lean models of `remove_continue` — hook by hook (`Rules/RemoveContinue.lean`, what the census
+theorems of C07 are about) and loop by loop (`Rules/RemoveContinuePost.lean`, what the behaviour theorem is
+about) — produce the same tree where every `continue` is inside a loop of its function, no `repeat` loop
+owns a `continue` and no identifier is a flag name. STATED, NOT PROVED: both are compared with the REAL
+rule by the harness (check `remove_continue:post-model`); a Lean proof is a simulation between two
+stateful visitor runs (meta/C06.json, proof_gaps). -/
+def continue_models_agree : Prop :=
+  ∀ (b : Block), C07.continueInLoops b = true → RemoveContinuePost.nrcB b = true →
+    (∀ k, b.refs (.ref (RemoveContinue.identifier k)) = false ∧ b.refs (.wat (RemoveContinue.identifier k)) = false) →
+    RemoveContinue.apply b = RemoveContinuePost.apply b
+
+-- non-vacuity: `while c do if a then continue end; f() end` through both models
+example : RemoveContinue.apply
+    (.mk [.while_ (.var "c") (.mk [.ifs [(.var "a", .mk [] (some .cont))] none,
+      .callStmt (.call (.var "f") none .tuple [])] none)] none) =
+  RemoveContinuePost.apply
+    (.mk [.while_ (.var "c") (.mk [.ifs [(.var "a", .mk [] (some .cont))] none,
+      .callStmt (.call (.var "f") none .tuple [])] none)] none) := rfl
+
+/-- **`remove_continue` as a whole, on the loop-by-loop model**: same observable outcome (returned values,
+raised error, external-call trace) for EVERY program, every number system / oracle / call budget. Each
+`while` / numeric `for` / generic `for` loop whose body owns a `continue` gets
+`local flag = false; repeat <body, continue ↦ flag = true; break> [; flag = true] until true; if not flag then break end`
+(the shared stage-3 leaf `Sem.Heap.LkS.removeContinueWhile/Nfor/Gfor`: the flag is a local of the lowered
+side only that is WRITTEN after other code has run — a pinned right cell — and the wrapped body answers
+`next` where the original answers `continue`); `repeat` loops are left alone by this model (F9). -/
+theorem continue_post_refines (b : Block) (ρ : ExtOracle N) (n : Nat) (externs : List String) :
+    runProgram ρ n externs (RemoveContinuePost.apply b) = runProgram ρ n externs b :=
+  Continue.post_refines b ρ n externs
+
+-- non-vacuity: the loop of the example above is really rewritten
+example : RemoveContinuePost.apply
+    (.mk [.while_ (.var "c") (.mk [.ifs [(.var "a", .mk [] (some .cont))] none,
+      .callStmt (.call (.var "f") none .tuple [])] none)] none) =
+  .mk [.while_ (.var "c") (.mk
+    [.localAssign .loc [.mk "__DARKLUA_CONTINUE_1" none] [.false],
+     .repeat_ (.mk [.ifs [(.var "a", .mk [.assign [.var "__DARKLUA_CONTINUE_1"] [.true]] (some .brk))] none,
+                    .callStmt (.call (.var "f") none .tuple []),
+                    .assign [.var "__DARKLUA_CONTINUE_1"] [.true]] none) .true,
+     .ifs [(.un .not (.var "__DARKLUA_CONTINUE_1"), .mk [] (some .brk))] none] none)] none := rfl
+
+/-- the claim for the hook-by-hook model (the one tied to the Rust hook by hook): same observable outcome
+where every `continue` is inside a loop of its function, no `repeat` loop owns a `continue` (F9) and no
+identifier is a flag name -/
 def continue_refines_partial : Prop :=
-  ∀ (b : Block) (N : NumOps) (ρ : ExtOracle N) (n : Nat) (externs : List String), wfB b = true →
-    C07.continueInLoops b = true → noRepeatB false b = true →
+  ∀ (b : Block) (N : NumOps) (ρ : ExtOracle N) (n : Nat) (externs : List String),
+    C07.continueInLoops b = true → RemoveContinuePost.nrcB b = true →
+    (∀ k, b.refs (.ref (RemoveContinue.identifier k)) = false ∧ b.refs (.wat (RemoveContinue.identifier k)) = false) →
     runProgram ρ n externs (RemoveContinue.apply b) = runProgram ρ n externs b
+
+/-- … follows from `continue_post_refines` as soon as the two models agree (`continue_models_agree`, checked
+by the harness against the real rule, not proved in Lean) -/
+theorem continue_refines_partial_of_agree (h : continue_models_agree) : continue_refines_partial :=
+  fun b _ ρ n externs h1 h2 h3 => by rw [h b h1 h2 h3]; exact Continue.post_refines b ρ n externs
 
 /-- **`remove_types` as a whole** preserves the observable outcome (returned values, raised error,
 external-call trace) of EVERY program. Every hook is locally sound: the expression hook and the block
